@@ -72,10 +72,21 @@ Section FINGERPRINT.
     | S n' => String (ascii_of_N (N.modulo x 256)) (le_bytes n' (N.div x 256))
     end.
   Definition descr_bytes (a b c : N) : string := (le_bytes 8 a ++ le_bytes 8 b ++ le_bytes 8 c)%string.
-  (* a := k + v; descr[0] += h; descr[1] ^= h; descr[2] *= 1779033703 + 2*h  — no separator between k and v *)
+  (* cityhash102.Hash128to64 (Murmur-inspired mix of two 64-bit words) *)
+  Definition kmul : N := 11376068507788127593%N.               (* 0x9ddfea08eb382d69 *)
+  Definition h128 (u v : N) : N :=
+    let a := w64 (N.lxor u v * kmul) in
+    let a := N.lxor a (N.shiftr a 47) in
+    let b := w64 (N.lxor v a * kmul) in
+    let b := N.lxor b (N.shiftr b 47) in
+    w64 (b * kmul).
+  (* after the fix: key and value are hashed separately and mixed, as the writer's fingerprintLabels does
+     (before it: CH64 of k ++ v, which made {a:"bc"} and {ab:"c"} one series) *)
+  Definition pair_hash (kv : string * string) : N := h128 (w64 (ch64 (fst kv))) (w64 (ch64 (snd kv))).
+  (* descr[0] += h; descr[1] ^= h; descr[2] *= 1779033703 + 2*h *)
   Definition fp_step (d : N * N * N) (kv : string * string) : N * N * N :=
     let '(a, b, c) := d in
-    let h := w64 (ch64 (fst kv ++ snd kv)%string) in
+    let h := pair_hash kv in
     (w64 (a + h), N.lxor b h, w64 (c * w64 (1779033703 + 2 * h)))%N.
   Definition fp_descr (m : lbls) : N * N * N := fold_left fp_step m (0, 0, 1)%N.
   Definition fingerprint (m : lbls) : N :=
